@@ -8,6 +8,9 @@ CONSTANTS
   Interleave = FALSE
   Cfgs <- CfgsSteps
   OraclesFor <- SeedOracles
+  MaxAccts = 0
+  AnswersFor <- AllAnswers
+  Deviation = {}
   ScenLen = 11
   Seeds = {1, 2, 3, 4, 5, 6, 7, 8}
   StartSlots = {4}
@@ -16,6 +19,7 @@ CONSTANTS
   MaxHolds = 99
   Focus = TRUE
   Disjoint = TRUE
+  Tight = FALSE
 INVARIANTS EmitInside
 CONSTRAINT HistBound
 CHECK_DEADLOCK FALSE
